@@ -130,7 +130,11 @@ impl BricksDomain {
                         }
                         // --Step 4-- Check whether two successive bricks have equal content.
                         // If so, merge them with the same content and add their min and max values together.
-                        else if current_brick.get_sequence() == next_brick.get_sequence() {
+                        // (But do not undo step 5: `[S]^{1,1}[S]^{0,n}` is what step 5 generates from `[S]^{1,n+1}`.)
+                        else if current_brick.get_sequence() == next_brick.get_sequence()
+                            && !((current_brick.get_min(), current_brick.get_max()) == (1, 1)
+                                && next_brick.get_min() == 0)
+                        {
                             let merged_brick =
                                 current_brick.merge_bricks_with_equal_content(next_brick);
                             normalized[index] = BrickDomain::Value(merged_brick);
